@@ -357,6 +357,8 @@ def check_program(e, program, lang, combo):
 
 def _show(t):
     try:
+        if hasattr(t, 'variance') and hasattr(t, 'bound'):        # projection / type parameter: variance and bound
+            return '%s %s' % (type(t).__name__, str(t))
         if hasattr(t, 'get_name') and not hasattr(t, 'params'):
             return '%s %s' % (type(t).__name__, t.get_name())
         return '%s %s' % (type(t).__name__, getattr(t, 'name', ''))
@@ -502,7 +504,7 @@ def plan(tier, seed):
     for s in cli_seeds:
         for n, k in enumerate(keys):
             for j in range(cli_langs):
-                jobs.append((LANGS[(n + j) % 4], s, k, True))
+                jobs.append((LANGS[(n + n // 4 + j) % 4], s, k, True))
     # most switches on first: these are the runs a deadline must not cut
     for s in seeds:
         for k in sorted(keys, key=lambda x: -x.count('1')):
@@ -517,20 +519,24 @@ def plan(tier, seed):
     return jobs, desc, deadline
 
 
-def run(tier, seed, stop_first=False, workers=None):
+def run(tier, seed, stop_first=False, workers=None, stop_prefix='bounded[', stop_function=None):
     t0 = time.time()
     jobs, desc, deadline = plan(tier, seed)
     workers = workers or int(os.environ.get('C17_WORKERS', '0')) or min(16, os.cpu_count() or 1)
     _ENV['e'] = load()          # before the fork: the workers inherit the loaded tree
     results = []
     cut = False
+
+    def hit(r):
+        return any(check_name(v).startswith(stop_prefix) and (stop_function is None or function_of(v) == stop_function)
+                   for v in r[5]['violations'])
     if workers > 1:
         import multiprocessing as mp
         pool = mp.get_context('fork').Pool(workers)
         try:
             for r in pool.imap_unordered(_job, jobs, chunksize=1):
                 results.append(r)
-                if stop_first and r[5]['violations']:
+                if stop_first and hit(r):
                     break
                 if time.time() - t0 > deadline:
                     cut = True
@@ -542,7 +548,7 @@ def run(tier, seed, stop_first=False, workers=None):
         for j in jobs:
             r = _job(j)
             results.append(r)
-            if stop_first and r[5]['violations']:
+            if stop_first and hit(r):
                 break
             if time.time() - t0 > deadline:
                 cut = True
